@@ -230,7 +230,7 @@ Section RoundTrip.
                    | NStr c s =>
                        if kind0 c then ([], push_text s chunks)
                        else match read_special c s with
-                            | Some (c', s') => (flushc pres' cont' chunks ++ [NS c' (collapse cfg pres' s')],
+                            | Some (c', s') => (flushc pres' cont' chunks ++ [NS c' s'],
                                                 trail_chunks c)
                             | None => ([], push_text (trailing c) chunks)
                             end
@@ -245,7 +245,7 @@ Section RoundTrip.
     | NStr c s =>
         if kind0 c then ([], push_text s chunks)
         else match read_special c s with
-             | Some (c', s') => (flushc pres cont chunks ++ [NS c' (collapse cfg pres s')], trail_chunks c)
+             | Some (c', s') => (flushc pres cont chunks ++ [NS c' s'], trail_chunks c)
              | None => ([], push_text (trailing c) chunks)
              end
     | NTag _ _ => (flushc pres cont chunks ++ nn_node pres cont k, [])
@@ -336,14 +336,26 @@ Section RoundTrip.
   (* ---- endData ---- *)
   Definition flush_class (cont : N) (cls : option N) : N :=
     match cls with Some c => if (c =? 0)%N then cont else c | None => cont end.
+  Definition special_cls (cls : option N) : bool := match cls with Some c => preformatted_cls c | None => false end.
+  (* text: a whitespace-only run collapses *)
   Lemma flush_step nodes x open chunks pres cont cls :
-    ctx (mkss nodes (x :: open) chunks) pres cont ->
+    ctx (mkss nodes (x :: open) chunks) pres cont -> special_cls cls = false ->
     s_flush cfg (mkss nodes (x :: open) chunks) cls =
     mkss (sn_kids cfg nodes x (flushc pres (flush_class cont cls) chunks)) (x :: open) [].
   Proof.
-    intros (H1 & H2 & H3). unfold s_flush, flushc. cbn [s_pending s_open s_nodes] in *.
-    destruct chunks as [|c0 chunks]; [reflexivity|]. rewrite H2, H3.
-    cbn [sn_kids sn_node hd_error]. unfold collapse, str_payload, flush_class. reflexivity.
+    intros (H1 & H2 & H3) Hsp. unfold s_flush, flushc, special_cls in *. cbn [s_pending s_open s_nodes] in *.
+    destruct chunks as [|c0 chunks]; [reflexivity|]. rewrite H2, H3, Hsp.
+    cbn [sn_kids sn_node hd_error negb andb]. unfold collapse, str_payload, flush_class. reflexivity.
+  Qed.
+  (* the content of a comment, CDATA section, processing instruction, declaration or doctype is kept as sent *)
+  Lemma flush_step_special nodes x open chunk pres cont c :
+    ctx (mkss nodes (x :: open) [chunk]) pres cont -> preformatted_cls c = true -> c <> 0%N ->
+    s_flush cfg (mkss nodes (x :: open) [chunk]) (Some c) =
+    mkss (sn_kids cfg nodes x [NS c chunk]) (x :: open) [].
+  Proof.
+    intros (H1 & H2 & H3) Hsp Hc. unfold s_flush. cbn [s_pending s_open s_nodes rev concat app] in *.
+    rewrite Hsp. cbn [negb andb]. rewrite app_nil_r.
+    destruct (N.eqb_spec c 0) as [E|_]; [contradiction|]. reflexivity.
   Qed.
 
   (* ---- one token at a time ---- *)
@@ -374,20 +386,20 @@ Section RoundTrip.
     unfold read_token. cbn [rs_raw]. f_equal.
     destruct c as [|[[[]|[]|]|[[]|[]|]|]]; reflexivity.
   Qed.
-  Lemma read_special_class c s c' s' : read_special c s = Some (c', s') -> c' <> 0%N.
-  Proof. destruct c as [|[[[]|[]|]|[[]|[]|]|]]; cbn; intros [= <- _]; discriminate. Qed.
+  Lemma read_special_class c s c' s' : read_special c s = Some (c', s') -> c' <> 0%N /\ preformatted_cls c' = true.
+  Proof. destruct c as [|[[[]|[]|]|[[]|[]|]|]]; cbn; intros [= <- _]; split; (discriminate || reflexivity). Qed.
 
   Lemma step_special nodes x open chunks pres cont st c s c' s' :
     ctx (mkss nodes (x :: open) chunks) pres cont ->
     read_special c s = Some (c', s') ->
     mstep (mkss nodes (x :: open) chunks, mkrs None st) (TSpecial c s) =
-    (mkss (sn_kids cfg nodes x (flushc pres cont chunks ++ [NS c' (collapse cfg pres s')])) (x :: open) [], mkrs None st).
+    (mkss (sn_kids cfg nodes x (flushc pres cont chunks ++ [NS c' s'])) (x :: open) [], mkrs None st).
   Proof.
     intros Hc Hr. unfold mstep. cbn [snd fst]. rewrite read_special_events, Hr. unfold special_events.
-    cbn [fold_left s_step]. rewrite (flush_step _ _ _ _ _ _ None Hc). cbn [flush_class s_nodes s_open s_pending].
-    rewrite (flush_step _ _ _ [s'] pres cont (Some c')) by (eapply ctx_sn_kids; exact Hc).
-    cbn [flush_class]. destruct (N.eqb_spec c' 0) as [E|_]; [now apply read_special_class in Hr|].
-    rewrite sn_kids_app. unfold flushc at 2. cbn [rev concat app]. now rewrite app_nil_r.
+    destruct (read_special_class c s c' s' Hr) as [Hn Hp].
+    cbn [fold_left s_step]. rewrite (flush_step _ _ _ _ _ _ None Hc eq_refl). cbn [flush_class s_nodes s_open s_pending].
+    rewrite (flush_step_special _ _ _ s' pres cont c') by (try eapply ctx_sn_kids; eassumption).
+    now rewrite sn_kids_app.
   Qed.
 
   (* attributes *)
@@ -429,7 +441,7 @@ Section RoundTrip.
     let nodes1 := sn_kids cfg nodes x (flushc pres cont chunks) in
     mkss (nodes1 ++ [mksn (Some x) (tag_payload cfg q attrs)]) (length nodes1 :: x :: open) [].
   Proof.
-    intros Hc. cbn [fold_left s_step]. rewrite (flush_step _ _ _ _ _ _ None Hc). reflexivity.
+    intros Hc. cbn [fold_left s_step]. rewrite (flush_step _ _ _ _ _ _ None Hc eq_refl). reflexivity.
   Qed.
   (* its end tag: pending text becomes a string, the element is closed *)
   Lemma step_end nodes1 x open par attrs q more chunks pres' cont' :
@@ -439,7 +451,7 @@ Section RoundTrip.
     fold_left (s_step cfg) [EEnd q None] (mkss nodes2 (me :: x :: open) chunks) =
     mkss (sn_kids cfg nodes2 me (flushc pres' cont' chunks)) (x :: open) [].
   Proof.
-    intros me nodes2 Hc. cbn [fold_left s_step]. rewrite (flush_step _ _ _ _ _ _ None Hc). cbn [flush_class].
+    intros me nodes2 Hc. cbn [fold_left s_step]. rewrite (flush_step _ _ _ _ _ _ None Hc eq_refl). cbn [flush_class].
     cbn [s_open s_nodes s_pending close_through].
     destruct (sn_kids_prefix cfg (flushc pres' cont' chunks) nodes2 me) as [m2 E]. rewrite E.
     unfold nodes2. rewrite <- (app_assoc _ more m2). rewrite s_name_me, s_prefix_me. cbn [tag_payload p_name p_prefix opt_str_eqb].
@@ -701,7 +713,7 @@ Section RoundTrip.
     - apply andb_prop in Hr as [Hcd Hks]. apply negb_true_iff in Hcd.
       rewrite (kids_run ks (proj2 (Forall_forall P ks) (fun t _ => tree_run t)) [root_snode cfg] 0%nat [] [] false 0%N (g_name p) Hc Hks Hcd).
       unfold result. cbn [fst].
-      rewrite (flush_step _ _ _ _ false 0%N None) by (eapply ctx_sn_kids; exact Hc).
+      rewrite (flush_step _ _ _ _ false 0%N None) by (reflexivity || (eapply ctx_sn_kids; exact Hc)).
       cbn [s_nodes flush_class]. now rewrite <- sn_kids_app, nk_norm_kids.
     - rewrite (tree_run (NTag p ks) [root_snode cfg] 0%nat [] [] false 0%N None Hc Hr I).
       unfold result. cbn [nk1 fst snd flushc app s_flush s_pending s_nodes]. now rewrite nn_norm.
